@@ -41,6 +41,7 @@ class Result(object):
         self.crosscheck = {}
         self.solver_s = 0.0
         self.by_backend = {}
+        self.slowest = []
         self.by_kind = {}
         self.dropped = {}
         self.notes = []
@@ -400,6 +401,7 @@ def check_property(prop, tier='quick', seed=0, only=None):
         for r in rec.results:
             res.solver_s += r['seconds']
             res.by_backend[r['backend']] = res.by_backend.get(r['backend'], 0) + 1
+            res.slowest.append((round(r['seconds'], 2), rec.full, r['backend']))
         if rec.status == 'undecided':
             why = '; '.join(sorted(set(r['reason'] for r in rec.results if r['status'] == 'unknown')))
             # an obligation the solvers cannot decide is never a violation by itself; but if the
@@ -549,6 +551,7 @@ def finish(res, mod, tier, seed, level):
         obligations_by_kind=res.by_kind,
         queries_by_backend=res.by_backend,
         solver_seconds=round(res.solver_s, 3),
+        slowest_queries=[dict(seconds=a, obligation=b, backend=c) for a, b, c in sorted(res.slowest, reverse=True)[:5]],
         crosscheck_vs_cpython=res.crosscheck,
         obligation_status=dict((full, ob.status) for full, ob, _, _ in res.obligs),
         samples=samples,
